@@ -119,6 +119,17 @@ def gen(rng, tier):
         else:
             ws = [rng.choice(words) for _ in range(rng.choice([12, 15, 18, 21, 24]))]
         yield dec_case(rng.choice([lang, "auto", "ENGLISH"]), " ".join(ws), "neg-invalid")
+    # word-count discipline at the bit level: a valid sentence with copies of the index-0 word (all-zero 11-bit groups) prepended or
+    # appended, or with zero words inserted, has an illegal word count whatever its bits say
+    for i in range(45 if tier == "quick" else 900):
+        lang = BIP39_LANGS[i % 9]
+        words = lists[lang]
+        ws = spec_encode(words, bytes(rng.randrange(256) for _ in range(rng.choice(SIZES))))
+        k = rng.choice([1, 2, 3])
+        z = words[0] if rng.random() < 0.8 else words[2047]
+        v = i % 4
+        ws2 = [z] * k + ws if v == 0 else ws + [z] * k if v == 1 else ws[:1] + [z] * k + ws[1:] if v == 2 else [z] * k + ws[:-k]
+        yield dec_case(rng.choice([lang, "auto"]), " ".join(ws2), "neg-zero-words" if v != 3 else "neg-invalid")
     # known ambiguity witness (F-autodetect): French sentence made of words that are also English
     s = " ".join(spec_encode(lists["FRENCH"], bytes.fromhex(F_AUTODETECT)))
     yield dec_case("FRENCH", s, "dec-lang")
